@@ -215,6 +215,15 @@ def make_body(rng: Rng, kind: str, templater: str = "jinja") -> tuple[str, dict]
     elif kind == "jinja_fixable":
         add_fixable(rng.randint(1, 2))
         text = jinja_ok(rng, text)
+    elif kind == "cte_multi":
+        # several CTEs whose closing brackets each break the same layout rule
+        n = rng.randint(2, 4)
+        ctes = []
+        for i in range(n):
+            ctes.append("cte%d AS (\n    SELECT %d AS c%d)" % (i, i, i))
+        text = "WITH " + ", ".join(ctes) + "\n\nSELECT c0\nFROM cte0\n"
+        if rng.chance(0.4):
+            add_fixable(1)
     else:
         raise ValueError(kind)
     return text, meta
